@@ -539,6 +539,7 @@ static void rays_for(const ACfg &cfg, int per, int field, bool thorough, long se
 int main(int argc, char **argv) {
   Args A = parse_args(argc, argv);
   Result R(A);
+  c16_install_fault_handler();
   const std::vector< ACfg > cfgs = all_cfgs();
   if (A.replay.empty() && !freopen("/dev/null", "w", stderr)) {
   }
